@@ -34,6 +34,10 @@ type Image struct {
 	CertSize      uint32
 	SecTableOff   int
 	Sections      []Section
+	// Tolerated is non-empty for an image that is not well-formed in the strict sense but for which
+	// the specification's hashing steps are still defined literally (a parser may refuse it; if it
+	// accepts, the digest and the set of covered bytes are the literal ones).
+	Tolerated string
 }
 
 var ErrIllFormed = errors.New("ill-formed PE image")
@@ -103,8 +107,13 @@ func Parse(b []byte) (*Image, error) {
 		if s.RawSize == 0 {
 			continue
 		}
-		if int64(s.RawPtr) < int64(im.SizeOfHeaders) || int64(s.RawPtr)+int64(s.RawSize) > int64(len(b)) {
-			return nil, ill("section %d raw data [%d,+%d) outside [SizeOfHeaders,file size)", i, s.RawPtr, s.RawSize)
+		if int64(s.RawPtr) < int64(end) || int64(s.RawPtr)+int64(s.RawSize) > int64(len(b)) {
+			return nil, ill("section %d raw data [%d,+%d) outside [end of headers,file size)", i, s.RawPtr, s.RawSize)
+		}
+		if int64(s.RawPtr) < int64(im.SizeOfHeaders) {
+			// SizeOfHeaders reaches into the section: steps 7 and 11 then both hash the overlap, and step
+			// 14 starts SizeOfHeaders + sum(SizeOfRawData) into the file
+			im.Tolerated = "a section begins inside SizeOfHeaders"
 		}
 		if e := int(s.RawPtr) + int(s.RawSize); e > dataEnd {
 			dataEnd = e
